@@ -252,6 +252,15 @@ func (e *Engine) intrinsic(st *State, fn *ssa.Function, name string, args []Valu
 	case "vCallAnon":
 		r, out, _ := e.intrinsicCallAnon(st, args, pos)
 		return r, out, true
+	case "vMkTime":
+		// time.Time abstracted to nanoseconds since the epoch, kept in the `ext` leaf (wall = 0, loc = nil)
+		rt := fn.Signature.Results().At(0).Type()
+		v := e.zero(rt)
+		v.L[1] = args[0].L[0]
+		return &v, st, true
+	case "vTimeNanos":
+		v := Value{T: types.Typ[types.Int64], L: []*smt.Term{args[0].L[1]}}
+		return &v, st, true
 	case "vHavocRange":
 		// vHavocRange(s any): the elements s[0:len(s)] take unknown values (models say what they know afterwards)
 		sv := e.unboxAny(st, args[0])
